@@ -54,6 +54,15 @@ Proof. exact send_sync_iff. Qed.
 Theorem C20_expectations_met : forall asm, Forall (met asm) expectations.
 Proof. exact met_all. Qed.
 
+(* the parametric statements agree with plain evaluation on concrete argument types: every table
+   entry, instantiated with the pairs (X, X), (X, f64), (f64, X) of 11 representative element / source types X (f64, Cell<f64>,
+   Rc<f64>, &f64, &Cell<f64>, &mut Cell<f64>, Tensor<Cell<f64>>, WengertList<f64>, Record<f64>,
+   dyn Trait + Send, (f64, Arc<Mutex<Cell<f64>>>)) and evaluated without assumptions, is Send / Sync
+   exactly when the table says so with `asm tr n` := "the n-th argument implements tr" *)
+Theorem C20_concrete_instantiations :
+  forallb (fun e => forallb (fun p => instance_ok e (fst p) (snd p)) representative_pairs) expectations = true.
+Proof. exact concrete_instantiations. Qed.
+
 (* every struct / enum declared in the crate is covered by the table: a new type must be classified *)
 Theorem C20_all_types_classified :
   forallb (fun d => mem (dname d) (map ename expectations)) decls = true.
@@ -136,6 +145,7 @@ Print Assumptions C20_record_containers_not_send_nor_sync.
 Print Assumptions C20_record_aliases_are_containers.
 Print Assumptions C20_send_sync_iff.
 Print Assumptions C20_expectations_met.
+Print Assumptions C20_concrete_instantiations.
 Print Assumptions C20_all_types_classified.
 Print Assumptions C20_borrow_carried.
 Print Assumptions C20_quadrants_carry_source_lifetime.
